@@ -16,17 +16,17 @@ import (
 // vertex per CFG node plus one "end" vertex per block). Function literals are opaque nodes here;
 // each literal has its own Graph.
 type Graph struct {
-	F     *Func
-	C     *cfg.CFG
-	off   []int // block index -> first vertex
-	N     int
-	succ  [][]int
-	pred  [][]int
-	node  []ast.Node // nil for end vertices
-	block []*cfg.Block
-	Entry int
-	Exits []int // vertices of return statements (including the synthetic fall-off return)
-	lockCls []map[string]bool
+	F          *Func
+	C          *cfg.CFG
+	off        []int // block index -> first vertex
+	N          int
+	succ       [][]int
+	pred       [][]int
+	node       []ast.Node // nil for end vertices
+	block      []*cfg.Block
+	Entry      int
+	Exits      []int // vertices of return statements (including the synthetic fall-off return)
+	lockCls    []map[string]bool
 	writeVerts map[types.Object][]int
 	vmap       map[ast.Node]int
 	// Dead-end vertices: end vertices of live blocks with no successors and no return (panic etc).
